@@ -84,7 +84,10 @@ type streamCoreConfig struct {
 // streamCore is the common functionality implemented by both the client and server
 // streams.
 type streamCore[I, O freighter.Payload] struct {
-	peerCloseErr       error
+	peerCloseErr error
+	// closed is set by the first call to close so that later calls (a client calling
+	// Receive again after the stream ended) do not close normalShutdownSig twice.
+	closed             bool
 	serverShutdownSig  <-chan struct{}
 	normalShutdownSig  chan struct{}
 	successfulShutdown chan struct{}
@@ -147,6 +150,10 @@ func (c *streamCore[I, O]) Receive() (I, error) {
 }
 
 func (c *streamCore[I, O]) close() error {
+	if c.closed {
+		return nil
+	}
+	c.closed = true
 	close(c.normalShutdownSig)
 	<-c.successfulShutdown
 	return c.conn.Close()
